@@ -398,6 +398,87 @@ theorem splitRecords_wf : ∀ (fuel : Nat) (b : Bytes) (rs : List Rec),
 theorem parseStream_wf (b : Bytes) (rs : List Rec) (h : parseStream b = some rs) : ∀ r ∈ rs, WF r :=
   splitRecords_wf _ _ _ h
 
+/-! ### `remaining_bytes` (round 6): the bytes after the copied prefix parse to the TAIL of the source
+    record list, and the experimental range of that tail is the experimental range of the source -/
+
+/-- parsing the bytes that follow a prefix of the records gives the remaining records -/
+theorem parseStream_drop_prefix (b : Bytes) (A B : List Rec) (h : parseStream b = some (A ++ B)) :
+    parseStream (b.drop (recsBytes A).length) = some B := by
+  have hb := parseStream_bytes b _ h
+  have hwf := parseStream_wf b _ h
+  have hd : b.drop (recsBytes A).length = recsBytes B := by
+    rw [← hb, recsBytes_append]; simp
+  rw [hd]
+  exact parseStream_recsBytes B (fun r hr => hwf r (List.mem_append_right _ hr))
+
+/-- on an ascending record list whose types satisfy `p` exactly below a bound, `TlvStream::range` is a PREFIX -/
+theorem rangeBy_prefix (p : Nat → Bool) (n : Nat) (rs : List Rec)
+    (hasc : rs.Pairwise (fun a b => a.ty < b.ty))
+    (hp : ∀ r ∈ rs, (p r.ty = true ↔ r.ty < n)) :
+    rangeBy p rs = rs.takeWhile (fun r => p r.ty) := by
+  cases rs with
+  | nil => simp [rangeBy]
+  | cons a t =>
+    by_cases ha : p a.ty = true
+    · have h2 : (a :: t).dropWhile (fun r => !p r.ty) = a :: t := by simp [List.dropWhile, ha]
+      simp [rangeBy, h2]
+    · have hall : ∀ r ∈ a :: t, p r.ty = false := by
+        intro r hr
+        have han : ¬ a.ty < n := fun hlt => ha ((hp a (List.mem_cons_self ..)).mpr hlt)
+        rcases List.mem_cons.mp hr with rfl | hrt
+        · simpa using ha
+        · have hlt : a.ty < r.ty := (List.pairwise_cons.mp hasc).1 r hrt
+          have : ¬ r.ty < n := by omega
+          cases hpr : p r.ty with
+          | false => rfl
+          | true => exact absurd ((hp r hr).mp hpr) this
+      have h2 : (a :: t).dropWhile (fun r => !p r.ty) = [] :=
+        dropWhile_nil_of_all _ _ (fun r hr => by simp [hall r hr])
+      have h5 : (a :: t).takeWhile (fun r => p r.ty) = [] := by simp [List.takeWhile, hall a (List.mem_cons_self ..)]
+      simp [rangeBy, h2, h5]
+
+theorem rangeRecs_eq_rangeBy (lo hi : Nat) (rs : List Rec) :
+    Ldk.OfferMeta.rangeRecs lo hi rs = rangeBy (fun t => decide (lo ≤ t) && decide (t < hi)) rs := rfl
+
+/-- `remaining_bytes = &src[copied.len()..]` parses to the records that follow the copied range, provided
+    the source is ascending and has no record BELOW the range (for an offer: no type 0; the reader chain
+    of `Offer` refuses it) -/
+theorem copyRest_is_tail (lo hi : Nat) (src : Bytes) (rs : List Rec)
+    (hparse : parseStream src = some rs) (hasc : rs.Pairwise (fun a b => a.ty < b.ty))
+    (hlo : ∀ r ∈ rs, lo ≤ r.ty) :
+    parseStream (src.drop (recsBytes (Ldk.OfferMeta.rangeRecs lo hi rs)).length)
+      = some (rs.dropWhile (fun r => decide (lo ≤ r.ty) && decide (r.ty < hi))) := by
+  have hpre : Ldk.OfferMeta.rangeRecs lo hi rs = rs.takeWhile (fun r => decide (lo ≤ r.ty) && decide (r.ty < hi)) := by
+    rw [rangeRecs_eq_rangeBy]
+    exact rangeBy_prefix (fun t => decide (lo ≤ t) && decide (t < hi)) hi rs hasc (fun r hr => by
+      have := hlo r hr
+      simp only [Bool.and_eq_true, decide_eq_true_eq]
+      omega)
+  rw [hpre]
+  apply parseStream_drop_prefix
+  rw [List.takeWhile_append_dropWhile]
+  exact hparse
+
+theorem dropWhile_dropWhile_of_imp {α} (p q : α → Bool) (h : ∀ a, p a = true → q a = true) :
+    ∀ l : List α, (l.dropWhile p).dropWhile q = l.dropWhile q
+  | [] => rfl
+  | a :: t => by
+    by_cases hpa : p a = true
+    · rw [List.dropWhile_cons_of_pos hpa, List.dropWhile_cons_of_pos (h a hpa)]
+      exact dropWhile_dropWhile_of_imp p q h t
+    · rw [List.dropWhile_cons_of_neg hpa]
+
+/-- a later range of the tail is that range of the whole stream -/
+theorem rangeRecs_tail (lo hi elo ehi : Nat) (rs : List Rec) (hle : hi ≤ elo) :
+    Ldk.OfferMeta.rangeRecs elo ehi (rs.dropWhile (fun r => decide (lo ≤ r.ty) && decide (r.ty < hi)))
+      = Ldk.OfferMeta.rangeRecs elo ehi rs := by
+  unfold Ldk.OfferMeta.rangeRecs
+  rw [dropWhile_dropWhile_of_imp]
+  intro a ha
+  simp only [Bool.and_eq_true, decide_eq_true_eq] at ha
+  simp only [Bool.not_eq_true', Bool.and_eq_false_iff, decide_eq_false_iff_not]
+  omega
+
 theorem ascendingB_of_pairwise : ∀ (l : List Rec), l.Pairwise (fun a b => a.ty < b.ty) → ascendingB l = true
   | [], _ => rfl
   | [_], _ => rfl
